@@ -219,7 +219,7 @@ def MarkStable (p : J) : Prop :=
 
 theorem get?_eq_resolve (j : J) (k : String) : j.get? k = resolve? j [k] := by
   cases j with
-  | obj kvs => simp only [get?, resolve?]; cases lookup k kvs <;> simp [resolve?]
+  | obj kvs => simp only [get?, resolve?]; cases lookup k kvs <;> simp
   | _ => simp [get?, resolve?]
 
 theorem isDRS_congr {a b : J} (h1 : resolve? a ["kind"] = resolve? b ["kind"])
